@@ -4,14 +4,19 @@ Model of the two CALLERS of `RebalanceWeight`, composed with `HapVerif.C16.rebal
 
 * `pkg/converters/gateway/gateway.go` `createBackend` (`gwRun`): one cluster per backendRef that is
   not skipped (nil port, Service not found, port not declared, endpoints unreadable), weight
-  `back.Weight` or 1 when nil, length = number of ready addresses, base 128; every server of
-  ref `i` gets `cl[i].Weight`.
+  `back.Weight` or 1 when nil, length = number of LISTED ready endpoints (`len(epready)`; an ip:port
+  may be listed more than once), base 128; then a separate server-writing step (a parameter,
+  `GwWrite`; the code: every listed endpoint becomes a server, `gwWriteAll`) gives every server of
+  ref `i` the weight `cl[i].Weight`.
 * `pkg/converters/ingress/annotations/backend.go` `buildBackendBlueGreenBalance` (`bgRun`): parse
   of `label=value=weight,...` (any malformed item aborts and leaves every weight untouched),
   clamp to 0..256, first loop over the endpoints (weight 0 = draining: skipped; the LAST matching
   entry's weight sticks, the endpoint is appended to EVERY matching group; no match / no pod: 0),
   mode `pod` stops there, any other mode rebalances with `initial-weight` and writes the groups
-  back in order (a later group overwrites an earlier one).
+  back in order (a later group overwrites an earlier one).  The endpoints it walks are the SERVERS
+  of the backend, which the ingress converter's `addEndpoints` built with `AcquireEndpoint`: one
+  server per ip:port (`bgAcquire`), so a repeated address is collapsed BEFORE the group lengths
+  are counted.
 
 Core-only.  The Spec (`gwOracle`, `bgOracle`) is evaluated on the implementation's output.
 -/
@@ -22,36 +27,80 @@ namespace HapVerif.C16
 structure GwRef where
   /-- `backendRef.weight`; `none` = nil = 1 -/
   weight : Option Int
-  /-- ready addresses of the service port -/
-  replicas : Nat
+  /-- the ready endpoints of the service port AS LISTED by `convutils.CreateEndpoints` (`epready`), one
+  address id (ip:port) per listed endpoint.  An id may REPEAT: `createEndpointSlices` and
+  `createEndpoints` do not dedup, so an endpoint listed by two overlapping EndpointSlices / subsets, or
+  several replicas behind the `haproxy-ingress.github.io/ip-override` address, are listed once each. -/
+  addrs : List Nat
   /-- the loop body hit a `continue` before the cluster was appended -/
   skipped : Bool
 deriving Repr, DecidableEq
+
+/-- `Length: len(epready)`: the replica count handed to `RebalanceWeight` is the number of LISTED
+endpoints — taken in the first loop, before any server is written -/
+def GwRef.replicas (r : GwRef) : Nat := r.addrs.length
+
+/-- `n` distinct addresses `1..n` (the shape every input had before repeated addresses were modelled) -/
+def gwDistinct (n : Nat) : List Nat := (List.range n).map (· + 1)
 
 /-- `convutils.RebalanceWeight(cl, 128)` (pinned by `Facts.c16GatewayBase`) -/
 def gwBase : Int := 128
 
 def gwKept (refs : List GwRef) : List GwRef := refs.filter fun r => !r.skipped
 
-/-- `weight := 1; if back.Weight != nil { weight = int(*back.Weight) }` -/
+/-- `weight := 1; if back.Weight != nil { weight = int(*back.Weight) }`, `Length: len(epready)` -/
 def gwCluster (r : GwRef) : Cluster := ⟨r.weight.getD 1, r.replicas⟩
 
 def gwClusters (refs : List GwRef) : List Cluster := (gwKept refs).map gwCluster
 
-/-- the servers of one kept ref: `ep.Weight = cl[i].Weight` for each ready address.  The
-unspecified weight of a zero-length cluster is never read (there is no address). -/
+/-! ### the server-writing step
+
+The second loop of `createBackend` writes the servers of backendRef `i` from `backends[i].epready`
+AFTER `RebalanceWeight` ran on the `Length`s above.  Which listed endpoints become servers is a
+PARAMETER of the model, so that both the code and the seeded variant are expressible. -/
+
+/-- which of the listed endpoints of ONE backendRef get a server (`habackend.AddEndpoint`), in order -/
+abbrev GwWrite := List Nat → List Nat
+
+/-- **the code**: `for _, addr := range backends[i].epready { ep := habackend.AddEndpoint(...) }` —
+every listed endpoint becomes a server, repeated addresses included (`AddEndpoint` appends, it does
+not look for an existing target; only the ingress converter uses `AcquireEndpoint`) -/
+def gwWriteAll : GwWrite := id
+
+/-- first occurrence of every address, in order -/
+def gwDedup : List Nat → List Nat
+  | [] => []
+  | a :: as => a :: (gwDedup as).filter (· != a)
+
+/-- **the seeded variant C16e**: an `added` set per backendRef skips a target that was already added
+for the same service — after `Length: len(epready)` was taken and `RebalanceWeight` ran with it -/
+def gwWriteDedup : GwWrite := gwDedup
+
+/-- the servers (address, weight) of one kept ref: `ep.Weight = cl[i].Weight` for each endpoint the
+writing step keeps.  The unspecified weight of a zero-length cluster is never read (no endpoint). -/
+def gwServersW (write : GwWrite) (r : GwRef) (o : Option Int) : List (Nat × Int) :=
+  match o with
+  | some w => (write r.addrs).map fun a => (a, w)
+  | none => []
+
+/-- kept refs with the servers written for them -/
+def gwKeptOutW (write : GwWrite) (refs : List GwRef) : List (GwRef × List (Nat × Int)) :=
+  ((gwKept refs).zip (rebalance (gwClusters refs) gwBase)).map fun p => (p.1, gwServersW write p.1 p.2)
+
+/-- the weights `RebalanceWeight`'s vector PROMISES: `Length` copies of the cluster's result (what the
+servers of a ref are when every listed endpoint is written: `gw_written_all`) -/
 def gwServersOf (c : Cluster) (o : Option Int) : List Int :=
   match o with
   | some w => List.replicate c.length.toNat w
   | none => []
 
-/-- kept refs with the weights of their servers -/
+/-- kept refs' clusters with `Length` copies of their result -/
 def gwKeptOut (refs : List GwRef) : List (Cluster × List Int) :=
   let cls := gwClusters refs
   (cls.zip (rebalance cls gwBase)).map fun p => (p.1, gwServersOf p.1 p.2)
 
 /-- put the kept refs' results back at their positions; a skipped ref has no server -/
-def gwSpread : List GwRef → List (List Int) → List (List Int)
+def gwSpread {α : Type} : List GwRef → List (List α) → List (List α)
   | [], _ => []
   | r :: rs, outs =>
     if r.skipped then [] :: gwSpread rs outs else
@@ -59,33 +108,53 @@ def gwSpread : List GwRef → List (List Int) → List (List Int)
     | o :: os => o :: gwSpread rs os
     | [] => [] :: gwSpread rs []
 
-/-- `createBackend`: `none` = `len(backends) == 0`, no backend; otherwise per backendRef (in
-order, skipped ones included) the weights of its servers -/
-def gwRun (refs : List GwRef) : Option (List (List Int)) :=
+/-- `createBackend` with the writing step `write`: `none` = `len(backends) == 0`, no backend; otherwise
+per backendRef (in order, skipped ones included) the servers (address, weight) written for it -/
+def gwRunW (write : GwWrite) (refs : List GwRef) : Option (List (List (Nat × Int))) :=
   if (gwKept refs).isEmpty then none
-  else some (gwSpread refs ((gwKeptOut refs).map (·.2)))
+  else some (gwSpread refs ((gwKeptOutW write refs).map (·.2)))
+
+/-- `createBackend` as it is -/
+def gwRun (refs : List GwRef) : Option (List (List (Nat × Int))) := gwRunW gwWriteAll refs
 
 /-- all elements equal: the common value (`none` for `[]` or a mixed list) -/
 def uniformW : List Int → Option Int
   | [] => none
   | w :: rest => if rest.all (· = w) then some w else none
 
-/-- Spec on the observed servers of the route's backend.  The shape clauses make the observation
-meaningful (a backend exists iff some ref is kept; a ref has exactly its ready addresses as
-servers); the property clauses are the ones of `oracle` (range, zero-iff, order, share) on
-(configured weight with nil = 1, replicas, weight written). -/
-def gwOracle (refs : List GwRef) (obs : Option (List (List Int))) : Option String :=
+/-- the cluster the Spec judges a ref by: configured weight (nil = 1) and the number of servers
+ACTUALLY WRITTEN for it — the share of a group is (weight of its servers) x (servers it has) -/
+def gwWrittenCluster (r : GwRef) (servers : List (Nat × Int)) : Cluster :=
+  ⟨r.weight.getD 1, servers.length⟩
+
+/-- Spec on the observed servers (address, weight) of the route's backend, per backendRef.
+
+Shape clauses make the observation meaningful: a backend exists iff some ref is kept; a skipped ref has
+no server; a server of a kept ref carries one of its listed addresses (`gw-shape`) and every listed
+address has at least one server (`gw-address-without-server`).  HOW MANY servers a repeated address
+gets is not prescribed (one per listed endpoint, or one per address, are both fine).
+
+Property clauses: `gw-range`; the servers of a ref carry one weight (`gw-group-not-uniform`); then the
+clauses of `oracle` (range, zero-iff, order, share) on (configured weight with nil = 1, number of
+servers WRITTEN, weight written): the share of a group is judged on the servers it really has, so
+weights computed for `N` replicas and written on `M < N` servers are a `gw-share` failure. -/
+def gwOracle (refs : List GwRef) (obs : Option (List (List (Nat × Int)))) : Option String :=
   match obs with
   | none => if (gwKept refs).isEmpty then none else some "gw-no-backend"
   | some per =>
     if (gwKept refs).isEmpty then some "gw-backend-without-ref" else
     if per.length ≠ refs.length then some "gw-shape" else
     let z := refs.zip per
-    if z.any (fun p => p.2.length ≠ (if p.1.skipped then 0 else p.1.replicas)) then some "gw-shape" else
-    if z.any (fun p => p.2.any fun w => w < 0 ∨ w > 256) then some "gw-range" else
-    if z.any (fun p => p.2 ≠ [] ∧ uniformW p.2 = none) then some "gw-group-not-uniform" else
+    if z.any (fun p => if p.1.skipped then !p.2.isEmpty else p.2.any fun s => !p.1.addrs.contains s.1) then some "gw-shape" else
+    if z.any (fun p => !p.1.skipped && p.1.addrs.any fun a => !(p.2.any fun s => s.1 == a)) then some "gw-address-without-server" else
+    if z.any (fun p => p.2.any fun s => s.2 < 0 ∨ s.2 > 256) then some "gw-range" else
+    if z.any (fun p => p.2 ≠ [] ∧ uniformW (p.2.map (·.2)) = none) then some "gw-group-not-uniform" else
     let kept := z.filter fun p => !p.1.skipped
-    (oracle (kept.map fun p => gwCluster p.1) (kept.map fun p => uniformW p.2)).map ("gw-" ++ ·)
+    (oracle (kept.map fun p => gwWrittenCluster p.1 p.2) (kept.map fun p => uniformW (p.2.map (·.2)))).map ("gw-" ++ ·)
+
+/-- statistics: some kept ref lists an address more than once -/
+def gwHasRepeat (refs : List GwRef) : Bool :=
+  (gwKept refs).any fun r => (gwDedup r.addrs).length ≠ r.addrs.length
 
 /-! ## blue/green `buildBackendBlueGreenBalance` -/
 
@@ -102,6 +171,36 @@ structure BgEp where
   /-- labels of the pod; `none`: no TargetRef or `GetPod` failed -/
   labels : Option (List (String × String))
 deriving Repr, DecidableEq
+
+/-! ### from the listed endpoints to the servers (ingress converter `addEndpoints`)
+
+`convutils.CreateEndpoints` lists ready and not-ready endpoints (an ip:port may repeat, as for the
+gateway).  `addEndpoints` walks the ready ones, then (drain-support) the not-ready ones, with
+`backend.AcquireEndpoint(ip, port, targetRef)` = `FindEndpoint(target)` or `AddEndpoint`: a target
+that already has a server gets NO second server; the server keeps the `TargetRef` (pod) of the
+listing that created it, and a not-ready listing sets `ep.Weight = 0` on whatever server carries the
+address.  Blue/green runs later, on `d.backend.Endpoints`. -/
+
+structure BgListed where
+  /-- address id (ip:port) -/
+  addr : Nat
+  /-- `drain`: listed among the not-ready endpoints; `labels`: the pod of its targetRef -/
+  ep : BgEp
+deriving Repr, DecidableEq
+
+/-- one `AcquireEndpoint` (+ `ep.Weight = 0` for a not-ready listing) -/
+def bgAcquireStep (srv : List (Nat × BgEp)) (l : BgListed) : List (Nat × BgEp) :=
+  if srv.any (·.1 == l.addr) then
+    if l.ep.drain then srv.map fun s => if s.1 == l.addr then (s.1, { s.2 with drain := true }) else s
+    else srv
+  else srv ++ [(l.addr, l.ep)]
+
+/-- `addEndpoints` under drain-support: the ready listings in order, then the not-ready ones.
+(`CreateEndpoints` sorts each class by target; between equal targets the listing order is kept for the
+at most 12 endpoints per class the harness builds — insertion sort — and the order between different
+targets does not matter: `bgAcquireStep` only ever looks at the server of the same address.) -/
+def bgAcquire (ls : List BgListed) : List (Nat × BgEp) :=
+  ((ls.filter fun l => !l.ep.drain) ++ ls.filter fun l => l.ep.drain).foldl bgAcquireStep []
 
 /-- `strconv.ParseInt(s, 10, 0)` / `strconv.Atoi`: optional sign, at least one ASCII digit,
 nothing else, value within int64 -/
